@@ -225,6 +225,41 @@ def h_step_report(ctx):
     ctx.observe("report", [rep.fraction_lost, rep.packets_lost, rep.highest_sequence, rep.jitter])
 
 
+def h_receiver_rtx_stats(ctx, order):
+    """Per-SSRC counting at the receiver: a retransmission arriving on the RTX SSRC (also an empty
+    RTX padding probe) is counted for the RTX SSRC, never for the media SSRC it repairs."""
+    from aiortc.rtp import wrap_rtx
+
+    from .c11_nackrtx import RTX_SSRC, SSRC, _mk_receiver
+
+    r = _mk_receiver(True)
+
+    async def no_rtcp(*a, **kw):
+        pass
+
+    r._send_rtcp_nack = no_rtcp
+    r._send_rtcp_pli = no_rtcp
+    seq = ctx.int("media_seq", 0, 0xFFFF)
+    rseq = ctx.int("rtx_seq", 0, 0xFFFF)
+    media = RtpPacket(payload_type=96, sequence_number=seq, timestamp=1000, ssrc=SSRC, payload=b"\x10\x00\x01\x02", marker=1)
+    lost = RtpPacket(payload_type=96, sequence_number=(seq + 1) & 0xFFFF, timestamp=4000, ssrc=SSRC, payload=b"\x10\x00\x03\x04", marker=1)
+    repair = wrap_rtx(lost, payload_type=97, sequence_number=rseq, ssrc=RTX_SSRC)
+    probe = RtpPacket(payload_type=97, sequence_number=(rseq + 1) & 0xFFFF, timestamp=4000, ssrc=RTX_SSRC, payload=b"")
+    events = {"m": media, "r": repair, "p": probe}
+    for i, k in enumerate(order):
+        sx.run(r._handle_rtp_packet(events[k], arrival_time_ms=10 * i))
+    ctx.reach("rtx-stats-fed")
+    streams = r._RTCRtpReceiver__remote_streams
+    keys = list(streams.keys())
+    want_media = order.count("m")
+    want_rtx = order.count("r") + order.count("p")
+    got_media = streams[SSRC].packets_received if any(k == SSRC for k in keys) else 0
+    got_rtx = streams[RTX_SSRC].packets_received if any(k == RTX_SSRC for k in keys) else 0
+    ctx.check(got_media == want_media, "media-ssrc-counts-only-its-own-packets", "%r: %d, want %d" % (order, got_media, want_media))
+    ctx.check(got_rtx == want_rtx, "rtx-ssrc-counts-every-packet-it-carried", "%r: %d, want %d" % (order, got_rtx, want_rtx))
+    ctx.observe("n", [got_media, got_rtx])
+
+
 class _Ref:
     """RFC 3550 A.1 / A.3 / A.8 reference (30 lines)."""
 
@@ -333,6 +368,7 @@ HARNESSES = {
         stubs=STUBS,
         twin="added",
     ),
+    "receiver-rtx-stats": Harness("receiver-rtx-stats", h_receiver_rtx_stats, lambda tier: [{"order": o} for o in ("mr", "rm", "mrp", "pmr", "r", "p")], style="STEP", bounds="real RTCRtpReceiver._handle_rtp_packet with RTX negotiated: a media packet, a retransmission of its successor and an empty RTX probe in 6 orders; media and RTX sequence origins symbolic", encoded=ENC + ["aiortc.rtcrtpreceiver:RTCRtpReceiver._handle_rtp_packet"], stubs=STUBS, twin="rtx-stats-fed", opts={"samples": 1}),
     "step-report": Harness(
         "step-report", h_step_report, lambda tier: [{}], style="STEP", bounds="one report from an arbitrary state under Inv, built and serialised by the real _run_rtcp, parsed back", encoded=ENC, stubs=STUBS, twin="rtcp-iteration-done"
     ),
